@@ -49,7 +49,7 @@ pub unsafe extern "C" fn bcmp(a: *const u8, b: *const u8, n: usize) -> i32 {
     0
 }
 
-const RULE: &str = "generated: (request, key) pairs from the completeness generator (small requests, both carriers); for each, the expected signature (reference model) with ONE character at position p replaced by another of the same class (digit->digit, letter->letter), and 'everything from p on wrong' variants. Observed: the instruction-address trace (rolling hash + step count) of the complete sigv4_validate_request call in a forked child single-stepped with ptrace, under a harness-supplied byte-wise early-exit memcmp/bcmp. Oracle (metamorphic): for a fixed request and key the trace is identical for every p; the first variant is traced twice and a difference there makes the run inconclusive, never a violation. Non-trivial: a variant that the crate refuses with the signature-mismatch error (it reached the comparison) and whose trace was recorded; distinct by (request digest, position, tail flag).";
+const RULE: &str = "generated: (request, key) pairs from the completeness generator (small requests, both carriers); for each, the expected signature (reference model) with ONE character at position p replaced by another of the same class (digit->digit, letter->letter), and 'everything from p on wrong' variants. Observed: the instruction-address trace (rolling hash + step count) of the complete sigv4_validate_request call in a forked child single-stepped with ptrace, under a harness-supplied byte-wise early-exit memcmp/bcmp. Every second request is validated with a TRACE-level logger that renders every record, so the formatting code behind the library's trace!/debug! calls is part of the trace. Oracle (metamorphic): for a fixed request and key the trace is identical for every p; the first variant is traced twice and a difference there makes the run inconclusive, never a violation. Non-trivial: a variant that the crate refuses with the signature-mismatch error (it reached the comparison) and whose trace was recorded; distinct by (request digest, position, tail flag).";
 
 #[derive(Clone, Copy, Default)]
 struct TraceResult {
@@ -82,6 +82,8 @@ fn variant_sig(sig: &str, p: usize, tail: bool) -> String {
 struct Target {
     case: Case,
     sig: String,
+    /// validate with a TRACE-level logger that renders every record (the formatting code of trace!/debug! runs)
+    logged: bool,
 }
 
 /// Trace one validation in a forked child. Uses no heap in the parent.
@@ -105,6 +107,7 @@ unsafe fn trace_one(t: &Target, p: usize, tail: bool, max_steps: u64, block_step
         let mut prov = exec::Prov::new(case.prov.clone());
         let now = exec::to_datetime(case.cfg.now).unwrap();
         let opts = scratchstack_aws_signature::SignatureOptions { s3: case.cfg.s3, url_encode_form: case.cfg.fold };
+        exec::set_log_buffer(t.logged);
         libc::raise(libc::SIGSTOP);
         let (r, _) = exec::block_on(
             scratchstack_aws_signature::sigv4_validate_request(http_req, &case.cfg.region, &case.cfg.service, &mut prov, now, &scratchstack_aws_signature::NO_ADDITIONAL_SIGNED_HEADERS, opts),
@@ -198,7 +201,9 @@ fn targets(seed: u64, n: usize) -> Vec<(Plan, Target)> {
         if !exec::run(&b.case).res.is_ok() {
             continue;
         }
-        out.push((p, Target { case: b.case.clone(), sig: b.signed.signature.clone() }));
+        // every second request is validated with trace logging switched on
+        let logged = out.len() % 2 == 1;
+        out.push((p, Target { case: b.case.clone(), sig: b.signed.signature.clone(), logged }));
     }
     out
 }
@@ -251,9 +256,10 @@ fn main() {
             }
         };
         let b = p.build().expect("replay plan builds");
-        (vec![(p, Target { case: b.case.clone(), sig: b.signed.signature.clone() })], (0..64).collect(), vec![])
+        let logged = v["case"]["logged"].as_bool().unwrap_or(false);
+        (vec![(p, Target { case: b.case.clone(), sig: b.signed.signature.clone(), logged })], (0..64).collect(), vec![])
     } else {
-        let n = tier.pick(2, 6) as usize;
+        let n = tier.pick(2, 8) as usize;
         let pos: Vec<usize> = if tier == Tier::Thorough { (0..64).collect() } else { (0..64).step_by(4).chain(std::iter::once(63)).collect() };
         let tails: Vec<usize> = if tier == Tier::Thorough { vec![0, 1, 16, 32, 48, 62] } else { vec![0, 32] };
         (targets(seed, n), pos, tails)
@@ -277,6 +283,9 @@ fn main() {
         }
     }
 
+    // the capturing logger is installed for the whole process family (max level Trace); whether records are rendered
+    // is decided per tracee
+    exec::enable_log_capture();
     // ---- warm-up in the parent image: every lazily initialised global, both accept and refuse paths
     for (_, t) in &tg {
         let _ = exec::run(&t.case);
@@ -284,7 +293,8 @@ fn main() {
         let ns = variant_sig(&t.sig, 5, false);
         replace_signature(&mut c.req, &t.sig, &ns);
         let _ = exec::run(&c);
-        let _ = exec::run(&c);
+        let _ = exec::with_logs(|| exec::run(&c));
+        let _ = exec::with_logs(|| exec::run(&c));
     }
 
     // ---- tracer processes. Everything they need is allocated BEFORE the first fork and nothing is
@@ -385,7 +395,7 @@ fn main() {
                     cc.nontrivial(mix(digest, if tail { "tail" } else { "one" }, p as u64));
                     if samples_left > 0 {
                         samples_left -= 1;
-                        cc.sample(json!({"request": format!("{} {}", tg[t].1.case.req.method, tg[t].1.case.req.uri), "carrier": format!("{:?}", tg[t].0.spec.carrier), "first_wrong_position": p, "rest_wrong_too": tail,
+                        cc.sample(json!({"request": format!("{} {}", tg[t].1.case.req.method, tg[t].1.case.req.uri), "carrier": format!("{:?}", tg[t].0.spec.carrier), "first_wrong_position": p, "rest_wrong_too": tail, "trace_logging": tg[t].1.logged,
                             "steps": r.steps, "trace_hash": format!("{:016x}", r.hash), "baseline_steps": base.steps}));
                     }
                     ctx.record("trace", cc);
@@ -393,9 +403,10 @@ fn main() {
                         let f = Failure::new(
                             "trace-depends-on-position",
                             format!(
-                                "request {} ({:?} carrier): refusing a signature first wrong at position {}{} executed {} instructions (trace {:016x}); first wrong at position {} executed {} (trace {:016x})",
+                                "request {} ({:?} carrier, trace logging {}): refusing a signature first wrong at position {}{} executed {} instructions (trace {:016x}); first wrong at position {} executed {} (trace {:016x})",
                                 t,
                                 tg[t].0.spec.carrier,
+                                if tg[t].1.logged { "on" } else { "off" },
                                 p,
                                 if tail { " (rest wrong too)" } else { "" },
                                 r.steps,
@@ -405,7 +416,7 @@ fn main() {
                                 base.hash
                             ),
                         );
-                        ctx.violation("trace", &json!({"plan": tg[t].0, "position": p, "tail": tail}), &f);
+                        ctx.violation("trace", &json!({"plan": tg[t].0, "position": p, "tail": tail, "logged": tg[t].1.logged}), &f);
                         break;
                     }
                 }
